@@ -1,6 +1,7 @@
 package keeper
 
 import (
+	storetypes "cosmossdk.io/store/types"
 	sdk "github.com/cosmos/cosmos-sdk/types"
 
 	"github.com/functionx/fx-core/v8/x/crosschain/types"
@@ -31,4 +32,22 @@ func (k Keeper) GetPendingExecuteClaim(ctx sdk.Context, eventNonce uint64) (type
 func (k Keeper) DeletePendingExecuteClaim(ctx sdk.Context, eventNonce uint64) {
 	store := ctx.KVStore(k.storeKey)
 	store.Delete(types.GetPendingExecuteClaimKey(eventNonce))
+}
+
+// PendingBridgeCallResults returns the nonces of the outgoing bridge calls whose result
+// has been observed and is waiting to be executed.
+func (k Keeper) PendingBridgeCallResults(ctx sdk.Context) map[uint64]bool {
+	results := make(map[uint64]bool)
+	iter := storetypes.KVStorePrefixIterator(ctx.KVStore(k.storeKey), types.PendingExecuteClaimKey)
+	defer iter.Close()
+	for ; iter.Valid(); iter.Next() {
+		var claim types.ExternalClaim
+		if err := k.cdc.UnmarshalInterface(iter.Value(), &claim); err != nil {
+			panic(err)
+		}
+		if result, ok := claim.(*types.MsgBridgeCallResultClaim); ok {
+			results[result.Nonce] = true
+		}
+	}
+	return results
 }
